@@ -771,6 +771,29 @@ def DocKind.cls : DocKind → Kind
 /-- the `domain:type` column written for an object of the given kind -/
 def DocKind.role (k : DocKind) : Str := pyPrefix ++ k.cls.domain
 
+/-! ## which objects `driver.make` hands to the page writer and to the inventory writer -/
+
+/-- a selection of subjects -/
+inductive Subjects
+  | roots                       -- `system.rootobjects`: everything
+  | nothing                     -- `()`
+  | named (names : List Str)    -- `[system.allobjects[fn] for fn in options.htmlsubjects]`
+  deriving DecidableEq, Repr
+
+/-- the `subjects` passed to `writer.writeIndividualFiles` when `--make-html` is on -/
+def htmlSubjects (htmlsubjects : List Str) (summaryPagesOnly : Bool) : Subjects :=
+  if htmlsubjects ≠ [] then .named htmlsubjects          -- `if options.htmlsubjects:`
+  else if summaryPagesOnly then .nothing                 -- summary pages written, `subjects` stays `()`
+  else .roots
+
+/-- the `subjects` passed to `SphinxInventoryWriter.generate` (`makehtml` implies `makeintersphinx`);
+`none`: no inventory is written -/
+def inventorySubjects (makehtml makeintersphinx : Bool) (htmlsubjects : List Str) (summaryPagesOnly : Bool) :
+    Option Subjects :=
+  if makehtml then some (htmlSubjects htmlsubjects summaryPagesOnly)
+  else if makeintersphinx then some .roots               -- `if not options.makehtml: subjects = system.rootobjects`
+  else none
+
 /-! ## specification side: the visible reachable objects with their documented location -/
 
 /-- `url` for objects that have a parent or their own page (total version used in statements) -/
